@@ -137,6 +137,9 @@ struct SimAlloc {
 	// free everything still live (after a leak was reported) so the process
 	// can go on
 	void purge();
+	// byte that fresh allocations are filled with (two runs with different values and the same
+	// results show that no uninitialised byte reached an output)
+	static uint8_t poison_byte;
 	static void *s_alloc(void *opaque, size_t nmemb, size_t size);
 	static void s_free(void *opaque, void *ptr);
 };
